@@ -885,9 +885,23 @@ pub fn sanitise(n: &str) -> String {
 }
 
 pub fn c20(case: &Case) -> Verdict {
-    let (live, obs) = match prepared(case) {
-        Ok(x) => x,
-        Err(v) => return v,
+    match c20_with(case, false) {
+        Holds => c20_with(case, true),
+        v => v,
+    }
+}
+
+fn c20_with(case: &Case, refused_duplicates: bool) -> Verdict {
+    let (live, obs) = {
+        let mut live = match build_with(case, refused_duplicates) {
+            Ok(l) => l,
+            Err((i, m)) => return Skip(format!("builder call {} panicked: {}", i, m)),
+        };
+        live.setup();
+        match live.identify() {
+            Ok(o) => (live, o),
+            Err(e) => return Skip(format!("layout not identifiable: {}", e)),
+        }
     };
     let infos = &live.infos;
     for (what, text) in [("{:?}", &live.debug_text), ("{:#?}", &live.pretty_text)] {
@@ -911,8 +925,9 @@ pub fn c20(case: &Case) -> Verdict {
                     let label = &printed[s][g][p];
                     if !infos[u].name.is_empty() && *label != sanitise(&infos[u].name) {
                         return Fails(format!(
-                            "stage {} group {} position {} runs {} but the printed plan shows `{}` there (expected `{}`)",
-                            s, g, p, nm(&infos[u]), label, sanitise(&infos[u].name)
+                            "stage {} group {} position {} runs {} but the printed plan shows `{}` there (expected `{}`){}",
+                            s, g, p, nm(&infos[u]), label, sanitise(&infos[u].name),
+                            if refused_duplicates { "; after every named system a second registration under the same name was attempted and refused (its panic caught)" } else { "" }
                         ));
                     }
                     if label.is_empty() || !label.chars().all(|c| c.is_alphanumeric() || c == '_') {
